@@ -180,6 +180,7 @@ def rules(ctx):
     ctx.obligations[before:] = [o for o in ctx.obligations[before:] if "rotation-cycle" in o.id or "every-vehicle-reported" in o.id]
     for o in ctx.obligations[before:]:
         o.id = o.id.replace("C16/R2.", "C16/R5.json.")
+    C03.cycle_order_preserved(ctx, "R5.json")     # the order chosen by the transition optimisation is what is written out
     # R3: set_next_day_transitions stores its argument
     o, fd = ctx.require_fn("R3.set-transitions-stores-argument", "T1", SETT,
                            "set_next_day_transitions puts its argument into next_period_transitions")
